@@ -258,7 +258,9 @@ import props_c07  # noqa: E402
 import props_c03  # noqa: E402
 import props_c16  # noqa: E402
 
-PROPS = {"C18": c18, "C04": props_c04.c04, "C12": props_c12.c12, "C05": props_c05.c05, "C08": props_c08.c08, "C14": props_c14.c14, "C07": props_c07.c07, "C03": props_c03.c03, "C16": props_c16.c16}
+PROPS = {"C18": c18, "C04": props_c04.c04, "C12": props_c12.c12, "C05": props_c05.c05, "C08": props_c08.c08, "C14": props_c14.c14, "C07": props_c07.c07, "C03": props_c03.c03}
+# C16 is NOT claimed (see DESIGN.md): the generator is kept for the record and can be run as `./check C16X` (development only)
+EXPERIMENTAL = {"C16X": props_c16.c16}
 
 
 def dev(tier, seed, dst, facts):
@@ -274,6 +276,7 @@ def dev(tier, seed, dst, facts):
 
 
 PROPS["DEV"] = dev
+PROPS.update(EXPERIMENTAL)
 
 
 def generate(pid, tier, seed, dst):
